@@ -209,9 +209,13 @@ Ev(w, m, t, x) ==
             THEN /\ WithinLimits(x.opt, DepthIn(x.root, p))
                  /\ \A a \in Between(x.root, p) : ~Ev("pruned", x.prune, t, a)
             ELSE DepthIn(x.root, p) = 0}
-    [] w = "files" -> {p \in Ev("gen", <<>>, t, x) : \A i \in 1..Len(x.sel) : Ev("fm", x.sel[i], t, p) = "T"}
+    \* nested selections select from what the outer ones have selected: the matchers are applied outermost first, and
+    \* a file that one of them excludes is not shown to the inner ones (which may be undefined for it)
+    [] w = "sel" -> IF m = <<>> THEN "T"
+                    ELSE LET v == Ev("fm", Head(m), t, x) IN IF v = "T" THEN Ev("sel", Tail(m), t, x) ELSE v
+    [] w = "files" -> {p \in Ev("gen", <<>>, t, x) : Ev("sel", x.sel, t, p) = "T"}
     [] w = "defined" ->
-         /\ \A p \in Ev("gen", <<>>, t, x) : \A i \in 1..Len(x.sel) : Ev("fm", x.sel[i], t, p) \in {"T", "F"}
+         /\ \A p \in Ev("gen", <<>>, t, x) : Ev("sel", x.sel, t, p) \in {"T", "F"}
          /\ x.opt.rec => \A p \in Under(t, x.root) : IsDirLike(t[p]) =>
                             \A i \in 1..Len(x.prune) : Ev("fm", x.prune[i], t, p) \in {"T", "F"}
     [] w = "fm" ->
@@ -238,6 +242,7 @@ Ev(w, m, t, x) ==
            [] m.op = "const"     -> B4(m.b)
            [] OTHER ->
               LET F == Ev("files", <<>>, t, x) IN
+              IF \E p \in Ev("gen", <<>>, t, x) : Ev("sel", x.sel, t, p) = "H" THEN "H" ELSE
               CASE m.op = "is-empty"  -> B4(F = {})
                 [] m.op = "num-files" -> B4(Cmp(m.cmp, Cardinality(F), m.n))
                 [] m.op = "every"     -> Every4({Ev("fm", m.fm, t, p) : p \in F})
@@ -773,6 +778,10 @@ CoreProbes ==
             [id |-> "repeat-split-wrong", m |-> FsMatches(FALSE, WrongAt(Typed(one), 1) \o Typed(last) \o Typed(one))] >>)
      \o [i \in 1..Len(Quants) |-> [id |-> "every", m |-> FsEvery(Quants[i])]]
      \o [i \in 1..Len(Quants) |-> [id |-> "any", m |-> FsAny(Quants[i])]]
+     \* nested selections whose INNER matcher is defined only for what the outer one selects
+     \o << [id |-> "nested-sel-dir",  m |-> FsSel(FmType("dir"), FsSel(FmDirContents(NonRec, FsEmpty), FsNum(">=", 0)))],
+            [id |-> "nested-sel-file", m |-> FsSel(FmType("file"), FsSel(FmContents(TmEmpty), FsNum(">=", 0)))],
+            [id |-> "nested-sel-wrong-order", m |-> FsSel(FmContents(TmEmpty), FsSel(FmType("file"), FsNum(">=", 0)))] >>
 
 WithVerdicts(ps, Wr(_), tag) ==
   [i \in 1..Len(ps) |-> [id |-> ps[i].id \o tag, neg |-> FALSE, m |-> Wr(ps[i].m), exp |-> Verdict(Wr(ps[i].m))]]
